@@ -27,7 +27,7 @@ var solvers = []solverSpec{
 	{"z3", "z3", func(file string, t int) []string { return []string{"z3", fmt.Sprintf("-t:%d", t), file} }, false},
 	// the same query without its quantified assumptions (callee postconditions with forall are irrelevant to most
 	// goals but send MBQI into a loop): fewer assumptions, so "unsat" is still a proof
-	{"z3-new-qf", "z3qf", func(file string, t int) []string { return []string{"z3-new", "smt.bv.solver=2", fmt.Sprintf("-t:%d", t), file} }, true},
+	{"z3-new-qf", "z3qf", func(file string, t int) []string { return []string{"z3-new", fmt.Sprintf("-t:%d", t), file} }, true},
 }
 
 // stripQuantifiedAssumptions removes the (assert ...) lines that contain a quantifier, except the last assert
@@ -87,7 +87,11 @@ func raceSolve(queries map[string]string, name string, timeoutMs int, wantModel 
 	}
 	ch := make(chan res, len(solvers))
 	n := 0
+	only := os.Getenv("VC_SOLVERS")
 	for _, sp := range solvers {
+		if only != "" && !strings.Contains(","+only+",", ","+sp.name+",") {
+			continue
+		}
 		use := len(which) == 0
 		for _, w := range which {
 			if w == sp.name {
